@@ -153,6 +153,8 @@ func (m *Machine) reset(prefix []int) {
 	m.extra = nil
 	m.hashApps = map[string][]hashApp{}
 	m.clock = 0
+	m.keySeq = 0
+	m.rtypes = nil
 	m.timers = nil
 	m.path = &PathResult{}
 	m.solver.Reset()
